@@ -292,6 +292,6 @@ def run(chk):
             if rid in self.allow:
                 self.c.info(rid, *a, **kw)
     import rules.C07 as c07
-    c07.run(core.Only(chk, {"C07.bracket", "C07.payload", "C07.hdr", "C07.flip"}))
+    c07.run(core.Only(chk, {"C07.bracket", "C07.payload", "C07.hdr", "C07.flip", "C07.sib", "C07.blocks", "C07.size"}))
 
     chk.assumptions += ["header widths are joined with the writer via rules/C07.header_sums (T-agree between modules)"]
